@@ -6,6 +6,7 @@ from hypothesis import strategies as st
 import pyModeS as pms
 from ref import frames
 from vlib import gen
+from vlib import variants
 from vlib.core import Leg, call
 
 PROPERTY = "C09"
@@ -74,6 +75,8 @@ def match(chk, v):
 def chk_air(c, note):
     msg = build_air(c)
     exp = expected_air(c)
+    if c["vr"] & 1:
+        variants.prelude(pms, msg)  # parity / address of the same string looked at first
     for fname, fn in (("velocity", pms.adsb.velocity), ("airborne_velocity", pms.adsb.airborne_velocity)):
         for source in (False, True):
             r = call(fn, msg, source) if source else call(fn, msg)
